@@ -32,7 +32,7 @@ CMPS = [n for n, _ in lb.CMP]
 # published case needs a class that was not generated)
 ALL6 = frozenset(CMPS)
 TINY = [frozenset(), ALL6]
-FOUR = [frozenset(), frozenset(["eq"]), frozenset(["lt", "eq"]), frozenset(["le", "ne"])]
+FOUR = [frozenset(), frozenset(["lt"]), frozenset(["eq"]), frozenset(["le", "ne"])]
 FIVE = [frozenset(), frozenset(["lt"]), frozenset(["eq"]), frozenset(["lt", "eq"]), frozenset(["le", "ne"]), ALL6]
 SMALL = [frozenset(), frozenset(["lt"]), frozenset(["eq"]), frozenset(["lt", "eq"]), frozenset(["le", "ne"]),
          frozenset(["gt", "eq", "ne"]), ALL6]
@@ -417,3 +417,52 @@ def run(tier, seed):
                                      "their slots are set up by CPython's update_one_slot, which re-enters the base slot (observed, not judged)"],
                         violations=rep.n_violations())
     return rc
+
+
+def replay(path, seed):
+    """Re-run the cases of a replay file on freshly built classes; exit 1 if they still deviate."""
+    with open(path) as f:
+        rp = json.load(f)
+    desc = rp["descriptor"]
+    wd = core.subdir("c28replay")
+    still = 0
+    for k, det in enumerate(rp["cases"]):
+        if "defs" not in det:
+            print("not a replayable case: %r" % desc)
+            return 1
+        base = {"l": det["left"], "r": det["right"], "defs": det["defs"], "beh": det["behaviour"], "res": det["want"]["res"],
+                "log": det["want"]["log"], "ires": det["model"]["res"], "ilog": det["model"]["log"]}
+        cf = os.path.join(wd, "case%d.ndjson" % k)
+        out = os.path.join(wd, "out%d.json" % k)
+        if desc["part"] == "arith":
+            op, d = desc["op"], det["defs"]
+            case = dict(base, ip=desc["inplace"])
+            name = "c28r%d_%s" % (k, op)
+            src = lb.binop_source(op, True, depth3="T" in d, cs=[lb.bits(d.get("C"))], ss=[lb.bits(d.get("S"))], ds=[lb.bits(d.get("D"))])
+            o = lb.OPD[op]
+            args = lambda so: ["compiled", os.path.dirname(so), name, op, cf, out, str(seed), o[2], o[3], o[4]]
+            child = lb.BIN_CHILD
+        else:
+            case = dict(base, op=desc["op"], same=False, tos=det["total_ordering"])   # logs of same-object cases are already normalised
+            if det.get("same_object"):
+                case["same"] = True
+            name = "c28r%d_cmp" % k
+            src = lb.cmp_source(set(lb.cmp_class_names(case).values()), True)
+            args = lambda so: ["compiled", os.path.dirname(so), name, cf, out, str(seed)]
+            child = lb.CMP_CHILD
+        core.write_ndjson(cf, [case])
+        b = core.build_many([core.BuildSpec(name, src)])[0]
+        if not b.ok:
+            print("build failed: %s" % (b.errors or "")[-1000:])
+            return 1
+        r = run_children([("r", child, args(b.so), out)])["r"]
+        if not isinstance(r, dict):
+            print("child failed: rc=%s %s" % (r.rc, r.err[-800:]))
+            return 1
+        got = r["bad"][0] if r["bad"] else {"res": case["res"], "log": case["log"]}
+        print("%s %s %s  defs=%s behaviour=%s\n   want %s %s\n   got  %s %s" % (det["left"], det["operator"], det["right"], json.dumps(det["defs"]),
+              json.dumps(det["behaviour"]), case["res"], case["log"], got["res"], got["log"]))
+        still += bool(r["bad"])
+    if still:
+        print("VIOLATION property=%s replay=%s" % (PROP, path))
+    return 1 if still else 0
